@@ -1496,6 +1496,12 @@ func (self *Analyzer) matchExpression(node pAst.MatchExpression) ast.AnalyzedMat
 		})
 	}
 
+	// without a default branch it is possible that no arm matches: even if every arm diverges,
+	// the expression itself does not (it then yields `null`)
+	if defaultArm == nil && resultType.Kind() == ast.NeverTypeKind {
+		resultType = ast.NewNullType(node.Range)
+	}
+
 	// create an error if the result type is != unknown and there is no default branch
 	lastSpan := node.Span()
 	if len(node.Arms) > 0 {
